@@ -22,6 +22,7 @@ RULE += (" stream 'sentqueue': operation sequences (send / receipt that takes th
          "ids repeated) on the real send layer's sent-message memory vs Model/SentQueue.lean, and the clause itself: a message with fewer than MAX_SENT_QUEUE "
          "later sends and no receipt is found by a retry request.")
 RULE += (" Real-system-only scripts (case key realonly): damage to the FIRST ciphertext of a stanza (the pairwise part carrying the sender key) with the sender's next group messages racing the retry — outside the model's fault alphabet, decided by the property's clauses on the real run; a delivery that makes the receive layer handle stanzas more than 400 times is stopped and reported.")
+RULE += (' Fixed scripts with crossed first contact (two accounts send each other their first message at once) followed by duplicated deliveries.')
 ASSUMPTIONS = ["symbolic cryptography: a ciphertext opens exactly once, at the holder of the session / sender key it names (python-axolotl exercised, not modelled)",
                "the server double (routing, fan-out, receipts, key and group queries, per-account FIFO queues) is the honest server of the property",
                "fewer than 100 unacknowledged messages per sender; restarts only at quiescence; one fault per (message, recipient)"]
@@ -60,6 +61,16 @@ def cases(chk):
         {"accts": 3, "groups": [[1, 2, 3]], "script": [["send", 1, "g", 0, 0], ["restart", 1], ["send", 1, "g", 0, 3]], "faults": [], "restarts": [], "seed": 6},
         {"accts": 3, "groups": [[1, 2, 3]], "script": [["send", 1, "g", 0, 0], ["send", 1, "g", 0, 1], ["restart", 1], ["send", 1, "g", 0, 3], ["restart", 2], ["send", 2, "g", 0, 4]], "faults": [], "restarts": [], "seed": 7},
         {"accts": 2, "groups": [], "script": [["send", 1, "u", 2, 0], ["restart", 1], ["send", 1, "u", 2, 3], ["restart", 2], ["send", 2, "u", 1, 4], ["restart", 2], ["send", 1, "u", 2, 5]], "faults": [], "restarts": [], "seed": 8},
+    ]
+    # crossed first contact: two accounts send each other their FIRST message at the same moment (each builds its own session; both sessions
+    # live on as current / earlier state), then ordinary traffic both ways and in a group, some of it delivered twice
+    corpus += [
+        {"accts": 2, "groups": [], "script": [["send", 1, "u", 2, 0], ["send", 2, "u", 1, 1], ["wait"], ["send", 1, "u", 2, 3], ["send", 2, "u", 1, 4], ["wait"], ["send", 2, "u", 1, 5]],
+         "faults": [[2, "dup"], [3, "dup"], [4, "dup"]], "restarts": [], "seed": 21},
+        {"accts": 3, "groups": [[1, 2, 3]], "script": [["send", 1, "u", 2, 0], ["send", 2, "u", 1, 1], ["wait"], ["send", 1, "g", 0, 3], ["wait"], ["send", 2, "g", 0, 4], ["send", 1, "u", 2, 5]],
+         "faults": [[2, "dup"], [3, "dup"], [4, "dup"]], "restarts": [], "seed": 22},
+        {"accts": 3, "groups": [[1, 2, 3]], "script": [["send", 1, "u", 2, 0], ["send", 2, "u", 1, 1], ["send", 3, "u", 1, 2], ["send", 1, "u", 3, 6], ["wait"], ["send", 1, "g", 0, 3], ["send", 3, "g", 0, 4]],
+         "faults": [[4, "dup"], [5, "dup"]], "restarts": [], "seed": 23},
     ]
     for c in corpus:
         yield "script", c
